@@ -115,4 +115,13 @@ theorem C12_capacity_restored (n max : Nat) (hpos : 0 < max) :
 /-! non-vacuity -/
 example : (Srv.run (effMax none) true (.reading [] false) (abandonSignals .sending)).1 = .over := by decide
 
+
+/-- **Abandonment is observed where the model says**: the service call (readiness and call in one `oneshot` future) is raced, unconditionally, against the caller stopping the response stream, and the caller side is one stream per call that is reset when the call future is dropped (read off the source on this run). -/
+theorem C12_rpc_path_is_translated :
+    Gen.serveStepsGen = [.readRequest, .stampPeerId, .stampOrigin, .stampRemoteAddr, .stampInbound,
+                         .raceHandlerWithStop, .writeResponse, .finishSend, .awaitStopped, .returnOk] ∧
+    Gen.callStepsGen = [.openBi, .frameSend, .frameRecv, .writeRequest, .finishSend, .readResponse,
+                        .stampResponsePeerId, .returnResponse] ∧
+    Gen.rpcPathShapeChecked = true := ⟨rfl, rfl, rfl⟩
+
 end Anemo
